@@ -764,18 +764,27 @@ func (g *G) forStmt() string {
 	}
 	g.mult *= max(bound, 1)
 	nb := 1 + r.Intn(2)
+	// a named counted loop left by an error that catch() turns into a value in the SAME environment
+	// (the enclosing loops and the rest of the function keep running on that environment's registers)
+	caught := func(v string, lo int, loop string) string {
+		if !g.F.Catch || !r.Bool(.15) {
+			return loop
+		}
+		head, body, _ := strings.Cut(loop, " { ")
+		return "catch(" + head + " { if " + v + " == " + strconv.Itoa(lo+r.Intn(max(bound, 1))) + " { error(\"boom\") }; " + body + ")"
+	}
 	switch r.Intn(6) {
 	case 0: // for N {}
 		return "for " + strconv.Itoa(bound) + " " + g.block(nb, true)
 	case 1, 2: // for i = N {}
 		v := g.loopVarName()
 		g.pushLoopVar(v)
-		return "for " + v + " = " + strconv.Itoa(bound) + " " + g.block(nb, true)
+		return caught(v, 0, "for "+v+" = "+strconv.Itoa(bound)+" "+g.block(nb, true))
 	case 3: // for i = a:b {}
 		v := g.loopVarName()
 		g.pushLoopVar(v)
 		lo := r.Intn(4) - 1
-		return "for " + v + " = " + strconv.Itoa(lo) + ":" + strconv.Itoa(lo+bound) + " " + g.block(nb, true)
+		return caught(v, lo, "for "+v+" = "+strconv.Itoa(lo)+":"+strconv.Itoa(lo+bound)+" "+g.block(nb, true))
 	case 4: // for x = list {}
 		if g.F.Arrays {
 			v := g.loopVarName()
